@@ -372,15 +372,20 @@ func irisEqual(i1, i2 IRI, checkScheme bool) bool {
 		if len(uqv) != len(uwqv) {
 			return false
 		}
+		// the values of a key are compared as multisets: each value must occur equally often on both sides
 		for _, uqvv := range uqv {
-			eq := false
-			for _, uwqvv := range uwqv {
-				if uwqvv == uqvv {
-					eq = true
-					continue
+			cnt, cntw := 0, 0
+			for _, v := range uqv {
+				if v == uqvv {
+					cnt++
 				}
 			}
-			if !eq {
+			for _, uwqvv := range uwqv {
+				if uwqvv == uqvv {
+					cntw++
+				}
+			}
+			if cnt != cntw {
 				return false
 			}
 		}
